@@ -93,10 +93,18 @@ func (t Websocket) Supports(r *http.Request) bool {
 
 func (t Websocket) Do(w http.ResponseWriter, r *http.Request, exec graphql.GraphExecutor) {
 	t.injectGraphQLWSSubprotocols()
+	if t.Upgrader.Error == nil {
+		// Upgrade answers a failed handshake itself; make that answer the JSON error
+		// instead of appending a second body to gorilla's plain-text one.
+		t.Upgrader.Error = func(w http.ResponseWriter, r *http.Request, status int, reason error) {
+			w.Header().Set("Sec-Websocket-Version", "13")
+			w.Header().Set("Content-Type", "application/json")
+			SendErrorf(w, status, "unable to upgrade")
+		}
+	}
 	ws, err := t.Upgrader.Upgrade(w, r, http.Header{})
 	if err != nil {
 		log.Printf("unable to upgrade %T to websocket %s: ", w, err.Error())
-		SendErrorf(w, http.StatusBadRequest, "unable to upgrade")
 		return
 	}
 
